@@ -30,6 +30,7 @@ type Behaviour struct {
 	Cfg   GenesisOpts `json:"cfg"`
 	Views string      `json:"views"` // "", "full"
 	Steps []M         `json:"steps"`
+	Fire  []M         `json:"fire"` // tour mode: after the steps, every one of these transactions is fired at the state reached
 }
 
 type Runner struct {
@@ -39,6 +40,7 @@ type Runner struct {
 	acked  []M
 	vo     ViewOpts
 	step   int
+	lastPhase string
 	txHex  []string
 	panics int
 }
@@ -129,8 +131,63 @@ func RunBehaviour(b *Behaviour, out *bufio.Writer) (err error) {
 			return fmt.Errorf("behaviour %s step %d (%s): %w", b.ID, r.step, str(act, "name"), err)
 		}
 	}
+	if len(b.Fire) > 0 {
+		if err := r.tour(b.Fire); err != nil {
+			return fmt.Errorf("behaviour %s tour: %w", b.ID, err)
+		}
+	}
 	c = r.c
 	return nil
+}
+
+// tour: commit the state reached, then fire every transaction of the alphabet at it. A transaction that
+// changes the state is undone by dropping the application without committing and re-opening the database
+// (the trace records a "reset" so that the next step is again judged from the committed state).
+func (r *Runner) tour(fire []M) error {
+	if r.c.InBlock && r.lastPhase != "ended" {
+		r.step++
+		if err := r.doStep(M{"name": "EndBlock"}); err != nil {
+			return err
+		}
+	}
+	r.step++
+	if err := r.doStep(M{"name": "BeginBlock"}); err != nil {
+		return err
+	}
+	r.emit("mark", M{"name": "Mark"}, nil)
+	ackedSnap := append([]M{}, r.acked...)
+	for _, tx := range fire {
+		r.step++
+		before := r.c.rawDump(r.c.Ctx(), "aol", "did", "pnft", "bank", "authz")
+		if err := r.doStep(M{"name": "Deliver", "tx": tx}); err != nil {
+			return err
+		}
+		after := r.c.rawDump(r.c.Ctx(), "aol", "did", "pnft", "bank", "authz")
+		if !equalStrings(before, after) {
+			// undo: crash + restart on the same database, begin the same block again
+			if err := r.c.Restart(); err != nil {
+				return err
+			}
+			if err := r.c.BeginBlock(); err != nil {
+				return err
+			}
+			r.acked = append([]M{}, ackedSnap...)
+			r.emit("reset", M{"name": "Reset"}, nil)
+		}
+	}
+	return nil
+}
+
+func equalStrings(a, b []string) bool {
+	if len(a) != len(b) {
+		return false
+	}
+	for i := range a {
+		if a[i] != b[i] {
+			return false
+		}
+	}
+	return true
 }
 
 func (r *Runner) doStep(act M) error {
@@ -168,6 +225,7 @@ func (r *Runner) doStep(act M) error {
 		extra["real"] = M{"inv": inv, "err": fmt.Sprint(err), "supBefore": supBefore.String()}
 		c.InBlock = true // still before Commit; deliver state readable
 		r.emitPhase("ended", obs, extra)
+		r.lastPhase = "ended"
 		return nil
 	case "BeginBlock":
 		supBefore := c.App.BankKeeper.GetSupply(c.Ctx(), "umed").Amount
@@ -216,6 +274,7 @@ func (r *Runner) doStep(act M) error {
 	default:
 		return fmt.Errorf("unknown action %q", str(act, "name"))
 	}
+	r.lastPhase = "in"
 	r.emit("step", obs, extra)
 	return nil
 }
